@@ -32,10 +32,21 @@ type CaseC12b struct {
 
 func genC12b(rt *rapid.T) CaseC12b {
 	var c CaseC12b
-	n := rapid.IntRange(1, 4).Draw(rt, "nframes")
+	// (one case in four sends a long series: a resource that leaks per refused frame runs out only then)
+	n := rapid.OneOf(rapid.IntRange(1, 4), rapid.IntRange(1, 4), rapid.IntRange(1, 4), rapid.IntRange(9, 20)).Draw(rt, "nframes")
+	kinds := []string{"exact", "exact", "zero", "short", "long", "over", "over1", "huge63", "huge64", "ff10", "none", "raw"}
+	dom := ""
+	if n >= 9 {
+		// in a long series one kind of frame dominates (three frames in four)
+		dom = rapid.SampledFrom(kinds).Draw(rt, "dominant")
+	}
 	for i := 0; i < n; i++ {
+		pk := rapid.SampledFrom(kinds).Draw(rt, "prefix")
+		if dom != "" && rapid.IntRange(0, 3).Draw(rt, "useDominant") != 0 {
+			pk = dom
+		}
 		f := FrameC12{
-			Prefix:  rapid.SampledFrom([]string{"exact", "exact", "zero", "short", "long", "over", "over1", "huge63", "huge64", "ff10", "none", "raw"}).Draw(rt, "prefix"),
+			Prefix:  pk,
 			BodyLen: rapid.OneOf(rapid.IntRange(0, 3), rapid.IntRange(126, 130), rapid.IntRange(16382, 16386), rapid.IntRange(0, 70000)).Draw(rt, "bodylen"),
 			Cut:     rapid.OneOf(rapid.Just(-1), rapid.Just(-1), rapid.IntRange(0, 200)).Draw(rt, "cut"),
 		}
@@ -100,6 +111,7 @@ func execC12b(c CaseC12b) *Outcome {
 
 	var expect [][]byte
 	pastPrefix := false
+	hostileStuck := false
 	for fi, f := range c.Frames {
 		body := bytes.Repeat([]byte{byte('a' + fi)}, f.BodyLen)
 		var prefix []byte
@@ -158,27 +170,54 @@ func execC12b(c CaseC12b) *Outcome {
 		if f.Prefix != "none" && f.Prefix != "ff10" {
 			pastPrefix = true
 		}
-		s, err := ha.NewStream(ctx, hb.ID(), directchannel.PROTOCOL)
-		if err != nil {
-			return fail("harness: cannot open stream: %v", err)
-		}
-		_, _ = s.Write(prefix)
 		w := body
 		if f.Cut >= 0 && f.Cut < len(body) {
 			w = body[:f.Cut]
 		}
-		if len(w) > 0 {
-			_, _ = s.Write(w)
+		// (written from a goroutine: a receiver that has stopped reading must not park the harness - whether it
+		// still handles valid traffic is decided by the valid Send below)
+		wrote := make(chan error, 1)
+		go func() {
+			s, err := ha.NewStream(ctx, hb.ID(), directchannel.PROTOCOL)
+			if err != nil {
+				wrote <- err
+				return
+			}
+			_, _ = s.Write(prefix)
+			if len(w) > 0 {
+				_, _ = s.Write(w)
+			}
+			_ = s.Close()
+			wrote <- nil
+		}()
+		stuck := false
+		select {
+		case err := <-wrote:
+			if err != nil {
+				return fail("harness: cannot open stream: %v", err)
+			}
+		case <-time.After(3 * time.Second):
+			stuck = true
 		}
-		_ = s.Close()
 		_ = deliverable
+		if stuck {
+			expect = nil
+			pastPrefix = true
+			hostileStuck = true
+			break
+		}
 		time.Sleep(2 * time.Millisecond)
 	}
 	// later valid traffic must still be delivered, intact and attributed
 	final := []byte(fmt.Sprintf("final-%d", len(c.Frames)))
 	before := emB.count()
-	if err := chA.Send(ctx, hb.ID(), final); err != nil {
-		return fail("a valid Send after the hostile frames failed: %v", err)
+	var sendErr error
+	if gerr := guarded("a valid Send after the hostile frames", func() { sendErr = chA.Send(ctx, hb.ID(), final) }); gerr != nil {
+		cancel()
+		return fail("%v (the receiver no longer reads incoming streams)", gerr)
+	}
+	if sendErr != nil {
+		return fail("a valid Send after the hostile frames failed: %v", sendErr)
 	}
 	if !world.WaitFor(func() bool {
 		emB.mu.Lock()
@@ -203,7 +242,7 @@ func execC12b(c CaseC12b) *Outcome {
 	for _, f := range c.Frames {
 		// raw prefixes may or may not form a frame; a frame followed by trailing bytes ("short") may be
 		// delivered as announced or refused: both are within the statement, so only content rules apply
-		if f.Prefix == "raw" || f.Prefix == "short" {
+		if f.Prefix == "raw" || f.Prefix == "short" || hostileStuck {
 			hasRaw = true
 		}
 	}
